@@ -71,6 +71,8 @@ func (g *Gateway) newSubscriptionEntry(id string, ctx *planner.PlanningContext) 
 		OperationName: ctx.Request.OperationName,
 	}
 	if err := queryer.Subscribe(rootRequest, subEntry.queryerCloseCh, subEntry.respCh); err != nil {
+		// nobody is going to listen: let the queryer's goroutines go
+		close(subEntry.queryerCloseCh)
 		return nil, err
 	}
 
